@@ -37,12 +37,13 @@ void vio_watchdog(int seconds, const char* what) { wd_what = what; signal(SIGALR
 
 /* ---- replacements, reached through -Dname=vf_name in the harness build ---- */
 ssize_t vf_recv(int fd, void* buf, size_t len, int flags) {
-    (void)fd; (void)flags;
+    (void)fd;
     vio_item_t it;
     if (!vio_pop(&vio_net_in, &it)) longjmp(vio_done, 1);
     size_t n = it.n < len ? it.n : len;
     memcpy(buf, it.p, n);
-    return (ssize_t)n;
+    /* datagram sockets: MSG_TRUNC makes recv return the real length of a truncated datagram */
+    return (flags & MSG_TRUNC) ? (ssize_t)it.n : (ssize_t)n;
 }
 ssize_t vf_recvfrom(int fd, void* buf, size_t len, int flags, struct sockaddr* a, socklen_t* l) {
     (void)a; (void)l; return vf_recv(fd, buf, len, flags);
